@@ -83,6 +83,7 @@ type Lemma struct {
 	Requires []*Clause
 	Ensures  []*Clause
 	Arith    string
+	Strings  string // "smt": SMT string theory
 	Induct   string // induction variable ("" = none)
 	From     int64  // base: for n <= From the lemma is proved without hypothesis
 	File     string
@@ -275,6 +276,9 @@ func (cs *ContractSet) loadContractFile(path, defaultPkg string) error {
 				lastClause = &curLemma.Ensures[len(curLemma.Ensures)-1]
 			case "arith":
 				curLemma.Arith = rest
+			case "strings":
+				curLemma.Strings = rest
+				lastClause = nil
 			case "induct":
 				// induct <var> from <base>
 				f := strings.Fields(rest)
